@@ -24,7 +24,9 @@ def prebuild():
         return False, msg
     ok, msg = common.run_translator()
     if not ok:
-        return False, msg
+        # the regenerated model fragments are missing: every theorem that depends on them is unproved,
+        # but the harness, the model executable and the search for a failing input still run
+        common.TRANSLATOR_ERROR = msg
     ok, msg = common.build_ymodel()
     return ok, msg
 
@@ -1708,9 +1710,10 @@ def check_C11(tier):
                            ["explicit numbers are positive, pairwise distinct and distinct from the character codes of the literals used"])
 
 
-C11_THEOREMS = []
-C11_MODULES = []
-C11_LEVEL = "translation_validation"
+C11_THEOREMS = ["Visitor.C11_codes_distinct", "Visitor.C11_codes_kept", "Visitor.C11_codes_fresh",
+                "Visitor.C11_codes_distinct_rules", "Visitor.C11_sym_values_distinct"]
+C11_MODULES = ["Yv.Props.C11"]
+C11_LEVEL = "proof"
 
 
 # ------------------------------------------------------------------------------------------- C12
@@ -1822,9 +1825,10 @@ def check_C12(tier):
     return common.conclude(pid, tier, C12_LEVEL, proof, ties[:50], violations, cov, ["explicit %start; below the 2000-state cap"])
 
 
-C12_THEOREMS = []
-C12_MODULES = []
-C12_LEVEL = "translation_validation"
+C12_THEOREMS = ["Visitor.C12_productive_exact", "Visitor.C12_productive_stable", "Visitor.C12_productive_exact_built",
+                "Visitor.C12_verdict", "Visitor.C12_verdict_spec", "Visitor.C12_norule"]
+C12_MODULES = ["Yv.Props.C12"]
+C12_LEVEL = "proof"
 
 
 # ------------------------------------------------------------------------------------------- C13
